@@ -411,7 +411,7 @@ pub fn run(ctx: &Ctx) {
     for s in [
         "See e.g.", "e.g. foo", "2stuff", "et al. said", "Et Al.", " \t ", "\t\t  \t", "1980st", "1980s.", "0x", "0x1G", "0xFFFFFFFFFFFFFFFFF",
         "1.14.4. and 5", "I have 5.\n\n3", "a's 5's O'Neil's", "[a-z0-9] [a-z [a-] [ab]", "a'b'c'd", "....", ". . ..", "\"a\" \"b", "1e999$",
-        "http://a.b/c user@x.y www.a.b. a.b", "x:y //", "٣1 ½ 1½", "1.e5 1e+5 1e 1.", "İstanbul ﬁ ß", "don’t", "\n\n\n", "", " ",
+        "http://a.b/c user@x.y www.a.b. a.b", "1000000000000011th", "12345678901234567890 123456789012345.678901234567890", "0.000000000000000000001e10 1e-320 9007199254740993", "x:y //", "٣1 ½ 1½", "1.e5 1e+5 1e 1.", "İstanbul ﬁ ß", "don’t", "\n\n\n", "", " ",
     ] {
         plain_inputs.push(s.to_string());
     }
